@@ -407,7 +407,7 @@ func (tc *tchecker) walkProgram(t *Tpl, p *hast.Program, sc *tscope) {
 			}
 		}
 		if len(p.BlockParams) > 1 {
-			hv[p.BlockParams[1]] = hashVal{Type: types.Typ[types.Int]}
+			hv[p.BlockParams[1]] = hashVal{Type: types.Typ[types.Int], Lit: "@index"}
 		}
 		sc = &tscope{parent: sc, hash: hv, bparam: true}
 	}
@@ -744,8 +744,8 @@ func (tc *tchecker) resolvePath(t *Tpl, p *hast.PathExpression, sc *tscope) reso
 				continue
 			}
 			if _, ok := s.hash[p.Parts[0]]; ok && s.hash[p.Parts[0]].Type != nil && s.parent != nil {
-				if _, isInt := s.hash[p.Parts[0]].Type.(*types.Basic); isInt {
-					break // the key/index parameter
+				if s.hash[p.Parts[0]].Lit == "@index" {
+					break // the key/index parameter (an element of a []string is a basic type too)
 				}
 				p.Parts = p.Parts[1:]
 				p.Depth += d
